@@ -98,10 +98,10 @@ claim("C17", K,
       "Kani sequential contracts per Reference variant (clone/borrow/borrow_mut/into_inner/to_dyn!) inside the crate, plus harness crates outside rrtk that expand to_dyn! with and without alloc/std features",
       "For each variant in the build: a write through any clone's borrow_mut is read through every other clone; Rc/Arc targets stay alive after the original is dropped; to_dyn! succeeds and aliases for every variant it lists. The concurrency clause is not decidable with Kani and is listed as not decided.",
       K_BASE + "Sequential execution only.")
-claim("C18", K,
+claim("C18", "kani+verus",
       "Kani proof harnesses on every Time/DimensionlessInteger operator and conversion (cvc5 for float conversions)",
       "Integer operators are exact i64 arithmetic under the weakest no-overflow precondition; i64 conversions are the identity; Time -> Quantity is (ns as f32)/1e9 in seconds; Quantity -> Time is (v*1e9) as i64 for seconds and Err for every other unit; every mixed operator equals the Quantity operator after conversion.",
-      K_BASE + "ulp/monotonicity accuracy clauses: attempted bit-precisely in the thorough tier; reported undecided when the solver does not finish.")
+      K_BASE + V_BASE + "The accuracy clauses (monotone, two ulps, round trip within |t|*2^-22 + 1 ns) are Verus lemmas under the standard model of floating-point arithmetic (A12: each primitive operation correctly rounded with relative error 2^-24 and monotone), composed along the exact contracts of the two extracted conversions; the bit-precise attempts did not finish.")
 claim("C19", K,
       "the same value contracts re-proved by Kani against the code each of 7 feature configurations compiles (quick: 3), plus no-panic/no-reject harnesses for the unchecked builds and a scan of every cfg site",
       "Every cfg-dependent item is listed by a scan of /repo; for each, the value contract - a function of the raw f32/i64 inputs only - is proved in every configuration, so equal inputs give equal numbers in all of them; with checking compiled out add/sub/ordering/setters/try_from never panic or reject for any pair of units; std abs and the manual branch agree.",
